@@ -631,6 +631,7 @@ func tamperA(r *ev.Run, root string, n int, large bool) {
 	}
 	t := &tstore{r: r, in: in, id: id, sc: newScanner(), rng: rng,
 		nFlipLarge: r.Pick(256, 768), masksPer: r.Pick(1, 2), checkAll: true}
+	in.sc = t.sc
 	t.plains = universeA(rng, large)
 	if !t.receiveAll(0) {
 		return
@@ -649,15 +650,14 @@ func tamperA(r *ev.Run, root string, n int, large bool) {
 		return
 	}
 	in.leakCheckAll(t.sc, t.plains, "after all receives")
-	r.Count("bytes_scanned", int(t.sc.scanned))
-	t.sc.scanned = 0
+	r.Count("bytes_scanned", t.sc.takeScanned())
 	r.Count("plaintext_blobs", len(t.plains))
 	t.run()
 	if t.hung {
 		return
 	}
 	in.leakCheckAll(t.sc, t.plains, "after the tamper phase (state restored)")
-	r.Count("bytes_scanned", int(t.sc.scanned))
+	r.Count("bytes_scanned", t.sc.takeScanned())
 }
 
 func (t *tstore) receiveAll(from int) bool {
@@ -697,6 +697,7 @@ func tamperB(r *ev.Run, root string, n int) {
 	}
 	t := &tstore{r: r, in: in, id: id, sc: newScanner(), rng: rng,
 		nFlipLarge: r.Pick(256, 768), masksPer: 1, checkAll: false, swapLimit: r.Pick(10, 40)}
+	in.sc = t.sc
 	// receive until the meta store holds a packed meta blob of more than one STREAM chunk (> 64 KiB:
 	// about 5 nested compactions) and a few single ones; a compaction that ended by the benign index
 	// race only delays this, hence the bound instead of a fixed count
@@ -729,8 +730,7 @@ func tamperB(r *ev.Run, root string, n int) {
 	}
 	noteCompactions(r, in)
 	in.leakCheckAll(t.sc, t.plains, "after all receives and compactions")
-	r.Count("bytes_scanned", int(t.sc.scanned))
-	t.sc.scanned = 0
+	r.Count("bytes_scanned", t.sc.takeScanned())
 	r.Count("plaintext_blobs", len(t.plains))
 	// choose targets: the largest meta blob (packed), 3 seeded single meta blobs, 4 seeded data blobs
 	_, metaRefs := t.lowerOrder()
@@ -759,7 +759,7 @@ func tamperB(r *ev.Run, root string, n int) {
 		t.swap(in.meta, "meta", last, metaRefs[last], in.meta, "meta", 0, metaRefs[0], -1, false)
 	}
 	in.leakCheckAll(t.sc, t.plains, "after the tamper phase (state restored)")
-	r.Count("bytes_scanned", int(t.sc.scanned))
+	r.Count("bytes_scanned", t.sc.takeScanned())
 }
 
 func (t *tstore) receiveAll1(i int) bool {
